@@ -395,7 +395,7 @@ func runForgetRace(sec *vh.Section, nb int) {
 	}
 }
 
-// runReorderRace is the deterministic replay of finding F62: two writers of one partition; the journal orders their records
+// runReorderRace is the deterministic replay of finding F85: two writers of one partition; the journal orders their records
 // (batch B before batch C) but the time-index notifications arrive in the other order. The late notification of B is merged
 // into the tree behind C's point: block.addInterval keeps p1.ts = max(B.max, last.ts) = C's maximum but takes p1.idx = B's last
 // record, so the last index point says "timestamp C.max at position B.last" and drops C's own point; lastRec and Recs go DOWN.
@@ -470,7 +470,7 @@ func runReorderRace(sec *vh.Section, n int) {
 	if !r.doWrite(op{Kind: "write", Segs: []seg{{T: 3000, N: n, D: 1}}}, rng) {
 		return
 	}
-	r.schedFinding = "F62"
+	r.schedFinding = "F85"
 	r.doQuery(op{Kind: "query", Lo: i64p(2000), Hi: i64p(2010)}, false)
 	r.doQuery(op{Kind: "query", Hi: i64p(2050)}, false)
 	r.doQuery(op{Kind: "query", Lo: i64p(1990), Hi: i64p(2100), Page: 97}, false)
@@ -492,7 +492,7 @@ func (failChunk) Iterator() (chunk.Iterator, error) {
 	return nil, fmt.Errorf("verif: injected read error")
 }
 
-// runLightFillFailure is the deterministic replay of finding F63 (placeholder id; lead "a failed lightFill leaves the hull
+// runLightFillFailure is the deterministic replay of finding F86 (placeholder id; lead "a failed lightFill leaves the hull
 // [MaxInt64, 0]"). Crash image (no snapshot entry); the first SyncChunks cannot read the chunk's records: the chunk's
 // Iterator() fails (an I/O error, e.g. no file descriptor left; a cancelled context does NOT make lightFill fail). The entry
 // then carries [MaxInt64, 0] with Recs = 0, and it STAYS so: later SyncChunks read the two records again but syncChunks'
@@ -578,7 +578,7 @@ func runLightFillFailure(sec *vh.Section, n int) {
 	if !r.doWrite(op{Kind: "write", Segs: []seg{{T: 2000, N: n, D: 1}}}, rng) {
 		return
 	}
-	r.schedFinding = "F63"
+	r.schedFinding = "F86"
 	r.doQuery(op{Kind: "query", Lo: i64p(150), Hi: i64p(160)}, false)
 	r.doQuery(op{Kind: "query", Hi: i64p(1005)}, false)
 	r.doQuery(op{Kind: "query", Lo: i64p(1990), Hi: i64p(2010), Page: 7}, false)
